@@ -38,6 +38,11 @@ SOURCES = {
     "tri": ("periodic", {"wavetype": "tri", "V": 2, "w": "1/2", "phi": "a34"}),
     "saw01": ("periodic", {"wavetype": "saw", "V": 1, "w": "1/10", "phi": "0"}),
     "rectl": ("periodic", {"wavetype": "rect", "V": -1, "w": "1/2", "phi": "pi/2", "R": 3}),
+    # a fundamental above 1 rad/s with a sinusoid just outside the resolution of its third harmonic (distinct lines) ...
+    "rect8": ("periodic", {"wavetype": "rect", "V": 1, "w": 8, "phi": "0"}),
+    "ac24": ("ac", {"V": 2, "w": "24005/1000", "phi": "a34"}),
+    # ... and a sinusoid inside the resolution of the third harmonic of the 0.1 rad/s sawtooth (one merged line)
+    "ac03005": ("ac", {"V": -1, "w": "3005/10000", "phi": "0"}),
 }
 WMAX = ["0", "1/20", "1/4", "7/20", "3/2", "19/20", "5"]
 
@@ -93,7 +98,10 @@ def run_shard(desc):
     base, mix, fl, tier = desc
     res = new_result()
     d = build(base, mix, fl)
-    for wm in WMAX:
+    wmax = list(WMAX)
+    if ("rect8" in mix or "ac24" in mix) and "saw01" not in mix:
+        wmax.append("30")
+    for wm in wmax:
         res["evals"] += 1
         judge(d, wm, res, tier)
     return res
